@@ -295,14 +295,27 @@ Definition parse_signature (sig5 : list Z) : rres (list Z * Z) :=
     [sha : bytes -> hash], [verify hash sig pk], [recover hash sig rid : option pk].  The signable
     hash is computed from the *re-serialised* parsed invoice (timestamp and raw fields), exactly as
     [RawBolt11Invoice::signable_hash] does. *)
+(** An [n] field with known semantics: tag 19 and exactly 53 symbols (any other length is skipped
+    by the parser and kept as an unknown field; a 53-symbol field that is not a valid point makes
+    the whole parse fail, which [decode_pk = None] stands for). *)
+Definition is_payee_field (f : field) : bool :=
+  (fst f =? TAG_PAYEE_PUB_KEY) && (List.length (snd f) =? 53)%nat.
+(** [RawBolt11Invoice::payee_pub_key]: [find_extract!] = the FIRST such field, also when the field
+    list contains several. *)
+Definition first_payee_field (fs : list field) : option (list Z) :=
+  match filter is_payee_field fs with f :: _ => Some (snd f) | [] => None end.
+
 Section Signature.
   Variable hash : Type.
   Variable pubkey : Type.
   Variable sha : list Z -> hash.
   Variable verify : hash -> list Z -> pubkey -> bool.
   Variable recover : hash -> list Z -> Z -> option pubkey.
-  (** the [n] field, if one with known semantics is present (53 symbols, valid point) *)
-  Variable payee_of_fields : list field -> option pubkey.
+  (** secp256k1 point decoding of the 33 bytes carried by an [n] field *)
+  Variable decode_pk : list Z -> option pubkey.
+
+  Definition payee_of_fields (fs : list field) : option pubkey :=
+    match first_payee_field fs with Some d => decode_pk d | None => None end.
 
   Record signed_raw := {
     sr_hrp : raw_hrp; sr_ts : Z; sr_fields : list field; sr_sig : list Z; sr_rid : Z }.
@@ -310,7 +323,8 @@ Section Signature.
   Definition signable_hash (s : signed_raw) : hash :=
     sha (signable_bytes (print_hrp (sr_hrp s)) (ser_data (sr_ts s) (sr_fields s))).
 
-  (** [SignedRawBolt11Invoice::check_signature] *)
+  (** [SignedRawBolt11Invoice::check_signature]: the key verified against is the one
+      [payee_pub_key()] returns -- the same accessor [get_payee_pub_key] reports. *)
   Definition check_signature (s : signed_raw) : bool :=
     match payee_of_fields (sr_fields s) with
     | Some pk => verify (signable_hash s) (sr_sig s) pk
